@@ -249,12 +249,13 @@ def printt_values(out: str, tag: str):
     """Extracts the values of PrintT(<<tag, ...>>) lines from TLC output (bracket matching, so that
     output interleaved by several workers is still split correctly)."""
     res = []
-    needle = '<<"' + tag + '"'
+    needle = re.compile(r'<<\s*"' + re.escape(tag) + '"')
     pos = 0
     while True:
-        i = out.find(needle, pos)
-        if i < 0:
+        m = needle.search(out, pos)
+        if not m:
             break
+        i = m.start()
         depth = 0
         j = i
         while j < len(out):
@@ -345,7 +346,10 @@ class Result:
         if self.known_hits:
             cov["known_findings_hit"] = [e["id"] for e in self.known_hits]
         EVIDENCE.mkdir(exist_ok=True)
-        (EVIDENCE / f"{self.pid}.json").write_text(json.dumps(ev, indent=1, ensure_ascii=False, default=str) + "\n")
+        evpath = EVIDENCE / f"{self.pid}.json"
+        if os.environ.get("VERIF_NO_EVIDENCE"):   # self-test runs against mutants must not overwrite the real evidence
+            evpath = VERIF / ".work" / f"evidence-{self.pid}-{os.getpid()}.json"
+        evpath.write_text(json.dumps(ev, indent=1, ensure_ascii=False, default=str) + "\n")
         for e in self.known_hits:
             print(f"KNOWN-FINDING: property={self.pid} {e['description']}")
         rc = 0
